@@ -17,12 +17,20 @@ ASSUME_SINGLE = [
 
 
 def single(sub, qcases, tcases, cfg="native", **kw):
-    r = {"sub": sub, "cfg": cfg, "quick": {"cases": qcases, "secs": 60}, "thorough": {"cases": tcases, "secs": 600}}
+    r = {"sub": sub, "cfg": cfg, "quick": {"cases": qcases, "secs": 150}, "thorough": {"cases": tcases, "secs": 900}}
     r.update(kw)
     return r
 
 
+QUICK_CASES = 60000
+
+
 def S(rule, q, t, minq, nda=True, **kw):
+    # thresholds below were calibrated as ~1/3..1/10 of what q cases produce; the quick tier runs fewer cases so that it
+    # stays well inside its time budget on a loaded machine, and the thresholds are scaled accordingly
+    scale = min(1.0, QUICK_CASES / q) * 0.5
+    minq = {k: max(1, int(v * scale)) for k, v in minq.items()}
+    q = min(q, QUICK_CASES)
     runs = [single("single", q, t)]
     if nda:
         runs.append(single("single-nda", 0, max(1, t // 3), cfg="native-nda"))
